@@ -1,4 +1,5 @@
 import SqlgrepModel.Lemmas.NoSkipPipeline
+import SqlgrepModel.Model.PipelineFollow
 /-
 "Only now() may differ between runs" (last sentence of C18).
 
@@ -476,5 +477,166 @@ theorem runFollowAllT_withNow (qy : Query) (stopAt : Option Nat) (lines : List L
 
 end
 end NowFree
+
+/-! ### the end-to-end model (`Model/Pipeline.lean`, `Model/PipelineFollow.lean`)
+
+`Facts` — everything the end-to-end model is told about the outside world — holds the evaluator's oracle in its field
+`eval`; the clock reading is `F.eval.total`'s `nowF` and appears nowhere else. -/
+
+namespace Pipeline
+open Sqlgrep.NowFree
+
+/-- the same facts about the outside world, another clock reading -/
+def Facts.withNow (F : Facts) (v : Value) : Facts := { F with eval := F.eval.withNow v }
+
+/-- **two sets of facts differ at most in the clock reading**: every field other than `eval` is the same, and the
+evaluator's oracles differ at most in `nowF` -/
+structure Facts.SameButNow (F₁ F₂ : Facts) : Prop where
+  classes : F₁.classes = F₂.classes
+  numbers : F₁.numbers = F₂.numbers
+  regexValid : F₁.regexValid = F₂.regexValid
+  lines : F₁.lines = F₂.lines
+  f64 : F₁.f64 = F₂.f64
+  reals : F₁.reals = F₂.reals
+  fs : F₁.fs = F₂.fs
+  lossy : F₁.lossy = F₂.lossy
+  eval : F₁.eval.SameButNow F₂.eval
+
+theorem Facts.sameButNow_withNow (F : Facts) (v : Value) : F.SameButNow (F.withNow v) :=
+  ⟨rfl, rfl, rfl, rfl, rfl, rfl, rfl, rfl, Oracles.sameButNow_withNow F.eval v⟩
+
+theorem Facts.SameButNow.eq_withNow {F₁ F₂ : Facts} (h : F₁.SameButNow F₂) : ∃ v, F₂ = F₁.withNow v := by
+  obtain ⟨c, n, r, l, f, re, fs, lo, ev⟩ := F₁
+  obtain ⟨c', n', r', l', f', re', fs', lo', ev'⟩ := F₂
+  obtain ⟨h1, h2, h3, h4, h5, h6, h7, h8, h9⟩ := h
+  simp only at h1 h2 h3 h4 h5 h6 h7 h8 h9
+  subst h1 h2 h3 h4 h5 h6 h7 h8
+  obtain ⟨v, hv⟩ := h9.eq_withNow
+  exact ⟨v, by rw [hv]; rfl⟩
+
+section
+variable (F : Facts) (v : Value)
+
+/-! everything but the engine reads fields of `Facts` other than `eval` -/
+theorem withNow_eval : (F.withNow v).eval = F.eval.withNow v := rfl
+theorem classesCover_withNow : classesCover (F.withNow v) = classesCover F := rfl
+theorem lexOracles_withNow : lexOracles (F.withNow v) = lexOracles F := rfl
+theorem regexValidOf_withNow : regexValidOf (F.withNow v) = regexValidOf F := rfl
+theorem regexValidFn_withNow : regexValidFn (F.withNow v) = regexValidFn F := rfl
+theorem fileLines_withNow : fileLines (F.withNow v) = fileLines F := rfl
+theorem openJoined_withNow : openJoined (F.withNow v) = openJoined F := rfl
+theorem realsCover_withNow : realsCover (F.withNow v) = realsCover F := rfl
+theorem realOracle_withNow : realOracle (F.withNow v) = realOracle F := rfl
+theorem mkFollowLine_withNow : mkFollowLine (F.withNow v) = mkFollowLine F := rfl
+
+theorem runNoTable_withNow (O : Oracles) (stmt : Stmt) (fromTable : String) (files : List (List Nat))
+    (h : stmt.nowFree = true) : runNoTable (O.withNow v) stmt fromTable files = runNoTable O stmt fromTable files := by
+  unfold runNoTable
+  simp only [fun qy j fs (hq : qy.stmt.nowFree = true) => runBatchT_withNow O v qy j fs hq, h]
+
+/-- `FileExecutor::execute` for a lowered statement over the defined tables and the raw bytes of the files -/
+theorem runStatement_withNow (tables : List Table) (stmt : Stmt) (fromTable : String) (join : Option LJoin)
+    (files : List (List Nat)) (h : stmt.nowFree = true) :
+    runStatement (F.withNow v) tables stmt fromTable join files = runStatement F tables stmt fromTable join files := by
+  have h1 : ∀ (t : TableInfo) (j : Option JoinInfo) jl fs,
+      runBatchT (F.eval.withNow v) { stmt := stmt, table := t, join := j } jl fs =
+        runBatchT F.eval { stmt := stmt, table := t, join := j } jl fs :=
+    fun t j jl fs => runBatchT_withNow F.eval v _ jl fs h
+  have h2 : ∀ (t : TableInfo) (j : Option JoinInfo) idxO fs,
+      runWithIndexT (F.eval.withNow v) { stmt := stmt, table := t, join := j } idxO fs =
+        runWithIndexT F.eval { stmt := stmt, table := t, join := j } idxO fs :=
+    fun t j idxO fs => runWithIndexT_withNow F.eval v _ idxO fs h
+  unfold runStatement
+  simp only [withNow_eval, fileLines_withNow, openJoined_withNow, runNoTable_withNow v F.eval stmt fromTable files h, h1, h2]
+
+/-- the part of the program after both texts are lowered -/
+theorem runLowered_withNow (defs query : LStmt) (fmt : Print.Format) (single : Bool) (files : List (List Nat))
+    (h : query.nowFree = true) :
+    runLowered (F.withNow v) defs query fmt single files = runLowered F defs query fmt single files := by
+  unfold runLowered
+  cases query with
+  | select s f ff j =>
+    simp only [stmtOf, runStatement_withNow F v _ (.select s) f j files h, realsCover_withNow, realOracle_withNow]
+    rfl
+  | aggregate a f ff j =>
+    simp only [stmtOf, runStatement_withNow F v _ (.aggregate a) f j files h, realsCover_withNow, realOracle_withNow]
+    rfl
+  | createTable _ _ _ => rfl
+  | multiple _ => rfl
+
+/-- the query text is rejected, or the statement it is read as calls `now` nowhere. Decidable: run the tokenizer, the
+parser and the lowering (none of which looks at the evaluator's oracle). -/
+def textNowFree (F : Facts) (queryText : List Char) : Bool :=
+  match parseText (lexOracles F) (regexValidFn F) queryText with
+  | .stmt q => q.nowFree
+  | _ => true
+
+theorem textNowFree_withNow (queryText : List Char) : textNowFree (F.withNow v) queryText = textNowFree F queryText := rfl
+
+/-- **the whole program, batch mode** -/
+theorem runText_withNow (defsText queryText : List Char) (fmt : Print.Format) (single : Bool) (files : List (List Nat))
+    (h : textNowFree F queryText = true) :
+    runText (F.withNow v) defsText queryText fmt single files = runText F defsText queryText fmt single files := by
+  unfold runText
+  simp only [classesCover_withNow, lexOracles_withNow, regexValidFn_withNow, regexValidOf_withNow]
+  unfold textNowFree at h
+  cases hq : parseText (lexOracles F) (regexValidFn F) queryText with
+  | stmt query =>
+    rw [hq] at h
+    simp only [runLowered_withNow F v _ query fmt single files h]
+  | _ => rfl
+
+/-! follow mode -/
+
+theorem followStatement_withNow (tables : List Table) (stmt : Stmt) (fromTable : String) (join : Option LJoin)
+    (delivered : List (List Nat)) (stopAt : Option Nat) (h : stmt.nowFree = true) :
+    followStatement (F.withNow v) tables stmt fromTable join delivered stopAt =
+      followStatement F tables stmt fromTable join delivered stopAt := by
+  have h1 : ∀ (t : TableInfo) sa ls,
+      runFollowAllT (F.eval.withNow v) { stmt := stmt, table := t, join := none } sa ls =
+        runFollowAllT F.eval { stmt := stmt, table := t, join := none } sa ls :=
+    fun t sa ls => runFollowAllT_withNow F.eval v _ sa ls h
+  unfold followStatement
+  simp only [withNow_eval, mkFollowLine_withNow, h1]
+
+theorem followAnswerOf_withNow (fmt : Print.Format) (r : Option FollowRun) :
+    followAnswerOf (F.withNow v) fmt r = followAnswerOf F fmt r := by
+  unfold followAnswerOf
+  simp only [realsCover_withNow, realOracle_withNow]
+  rfl
+
+theorem followLowered_withNow (defs query : LStmt) (fmt : Print.Format) (delivered : List (List Nat))
+    (stopAt : Option Nat) (h : query.nowFree = true) :
+    followLowered (F.withNow v) defs query fmt delivered stopAt = followLowered F defs query fmt delivered stopAt := by
+  unfold followLowered
+  cases query with
+  | select s f ff j =>
+    simp only [stmtOf, followStatement_withNow F v _ (.select s) f j delivered stopAt h, followAnswerOf_withNow]
+  | aggregate a f ff j =>
+    simp only [stmtOf, followStatement_withNow F v _ (.aggregate a) f j delivered stopAt h, followAnswerOf_withNow]
+  | createTable _ _ _ => rfl
+  | multiple _ => rfl
+
+theorem followLines_withNow (defsText queryText : List Char) (fmt : Print.Format) (delivered : List (List Nat))
+    (stopAt : Option Nat) (h : textNowFree F queryText = true) :
+    followLines (F.withNow v) defsText queryText fmt delivered stopAt = followLines F defsText queryText fmt delivered stopAt := by
+  unfold followLines
+  simp only [classesCover_withNow, lexOracles_withNow, regexValidFn_withNow, regexValidOf_withNow]
+  unfold textNowFree at h
+  cases hq : parseText (lexOracles F) (regexValidFn F) queryText with
+  | stmt query =>
+    rw [hq] at h
+    simp only [followLowered_withNow F v _ query fmt delivered stopAt h]
+  | _ => rfl
+
+/-- **the whole program, follow mode** -/
+theorem followText_withNow (defsText queryText : List Char) (fmt : Print.Format) (head : Bool) (initial : List Nat)
+    (ops : List FollowOp) (h : textNowFree F queryText = true) :
+    followText (F.withNow v) defsText queryText fmt head initial ops = followText F defsText queryText fmt head initial ops := by
+  unfold followText
+  exact followLines_withNow F v defsText queryText fmt _ _ h
+
+end
+end Pipeline
 
 end Sqlgrep
